@@ -991,9 +991,21 @@ OPAQUE_VALUE_ATTRS = {'T', 'shape', 'real', 'imag', 'dtype', 'ndim', 'size', 'fl
                       'edges', 'name'}
 
 
+# spellings of the same numpy operation on an opaque array get the same uninterpreted symbol
+# (x.conj() / x.conjugate() / np.conj(x) / np.conjugate(x);  x.T / x.transpose() / np.transpose(x))
+METHOD_SYNONYMS = {'conj': 'conjugate'}
+
+
 def opaque_method(ip, o, attr, args, kwargs):
+    attr = METHOD_SYNONYMS.get(attr, attr)
     ip.lib_pure.add('method:' + attr)
     extra = [v for k, v in sorted(kwargs.items())]
+    if attr == 'transpose' and not args and not extra:
+        r = uf('attr_T', o)
+        ip.add_pc(r != NONE)
+        return r
+    if attr == 'copy' and not args and not extra:
+        pass
     return uf('meth_' + attr, o, *[_idx_flat(a) for a in args], *extra)
 
 
@@ -1633,6 +1645,10 @@ def call_library(ip, dotted, args, kw):
     if dotted in LIB:
         ip.lib_used.add(dotted)
         return LIB[dotted](ip, args, kw)
+    if dotted in ('numpy.conj', 'numpy.conjugate') and len(args) == 1 and not kw and is_v(args[0]):
+        return opaque_method(ip, args[0], 'conjugate', [], {})
+    if dotted == 'numpy.transpose' and len(args) == 1 and not kw and is_v(args[0]):
+        return opaque_method(ip, args[0], 'transpose', [], {})
     if dotted.startswith(PURE_PREFIXES):
         ip.lib_pure.add(dotted)
         I = _interp_types()
